@@ -236,7 +236,38 @@ def live_segment_agreement(chk, prog, rule):
                         any("segment_id" in str(p_.get("n")) for x in fam2 for bl in x.blocks for p_ in _projections([bl["s"], bl["t"]])):
                     folds.append((bi, t, fam2))
     if not folds:
-        raise Inconclusive("DatabaseBuilder::open: the computation of the newest segment per bucket (a fold with max over segment ids) was not found; re-read it")
+        # loop form: `for (id, files) in segments.iter() { if files.events.is_none() { continue } latest.entry(..).and_modify(max).or_insert(..) }` in open itself
+        from ..gate import edge_dominates
+        sites = []
+        for bi, t in ob.calls():
+            c = ob.callee_decl(t) or ""
+            if c.rsplit("::", 1)[-1] == "and_modify" and len(t["args"]) >= 2:
+                cl = strip(oev.operand(t["args"][1], (bi, "T")))
+                cb = by_path.get(str(cl[1]).split(":", 1)[1]) if cl[0] == "agg" and str(cl[1]).startswith("closure:") else None
+                if cb is not None and any((cb.callee_decl(t2) or "").rsplit("::", 1)[-1] == "max" for _, t2 in cb.calls()):
+                    sites.append((bi, t))
+        if not sites:
+            raise Inconclusive("DatabaseBuilder::open: the computation of the newest segment per bucket (a fold or loop with max over segment ids) was not found; re-read it")
+        for bi, t in sites:
+            gated = False
+            for sb, bl in enumerate(ob.blocks):
+                tt = bl["t"]
+                if tt["k"] != "switch":
+                    continue
+                cond = oev.operand(tt["op"], (sb, "T"))
+                if not any(isinstance(x, tuple) and x and x[0] == "field" and x[2] == "events" and "UnopenedFileSet" in str(x[3]) for x in walk(cond)):
+                    continue
+                dsts = [d for _, d in tt["targets"]] + [tt["otherwise"]]
+                if any(d is not None and edge_dominates(ob, sb, d, bi) for d in dsts):
+                    gated = True
+            if gated == writer_checks:
+                chk.ok(rule, "both sides take the newest segment %s" % ("that has an events file" if gated else "directory"), ob.where(t["line"]))
+            else:
+                chk.fail(rule, OPEN, "live-segment-criterion", "the reopen scan takes the newest segment %s as the live one, the writer the newest %s: after a crash between creating "
+                         "a segment's directory and its events file they disagree, the live segment is loaded as sealed and open fails" % (
+                             "with an events file" if gated else "directory", "with an events file" if writer_checks else "directory"), ob, t["line"])
+        chk.floor(rule, len(sites), 1)
+        return
     for bi, t, fam2 in folds:
         recv = oev.operand(t["args"][0], (bi, "T"))
         filt = []
